@@ -89,9 +89,9 @@ def build_grid(tier='quick'):
             add('U_%s_%s' % ({'-': 'neg', '^': 'not', '+': 'pos'}[op], kn), [('x', kind)], kind, ('un', op, ('var', 'x', kind), kind), 'bv' if op == '^' else 'jn')
         # shifts: variable counts of several kinds, and constant counts around the width boundaries
         for op in ('<<', '>>'):
-            for ck in ('uint8', 'uint', 'uint64', 'int'):
-                pre = ('y >= 0') if ck == 'int' else None
-                add('S_%s_%s_by_%s' % (OPNAME[op], kn, ck), [('x', kind), ('y', ck)], kind, ('shift', op, ('var', 'x', kind), ('var', 'y', ck), kind), 'bv', pre)
+            for ck in ('uint8', 'uint', 'uint64', 'int', 'int64'):
+                # (a count of a signed type that is negative at run time panics: part of the specification semantics below)
+                add('S_%s_%s_by_%s' % (OPNAME[op], kn, ck), [('x', kind), ('y', ck)], kind, ('shift', op, ('var', 'x', kind), ('var', 'y', ck), kind), 'bv')
             for c in ((0, 1, 8, 31, 32, 40, 63, 64) if tier == 'quick' else (0, 1, 7, 8, 15, 16, 31, 32, 33, 40, 63, 64, 65)):
                 add('S_%s_%s_c%d' % (OPNAME[op], kn, c), [('x', kind)], kind, ('shift', op, ('var', 'x', kind), ('const', c, 'uint'), kind), 'bv')
             # typed 64-bit constant counts beyond the int64 range ("shifts by counts of any size")
@@ -125,7 +125,8 @@ def compound_cases():
 class Sem:
     def __init__(self, ex, st):
         self.ex, self.st = ex, st
-        self.panic = []          # conditions under which Go panics (integer divide by zero), in evaluation order
+        self.panic = []          # conditions under which Go panics (integer divide by zero, negative shift count), in evaluation order
+        self.panic_msg = []      # the run-time error message of each
     def bv(self): return self.ex.mode == 'bv'
     def num(self, n): return self.ex.num(n)
     def wrap(self, v, kind):
@@ -157,6 +158,9 @@ class Sem:
                     if t[1] == '>>' and s: return z3.If(x < 0, self.num(-1), self.num(0))
                     return self.num(0)
                 raise Unsupported('shift semantics need mode bv')
+            ck = kind_of(t[3])
+            if t[3][0] != 'const' and ck in KINDS and KINDS[ck][1]:
+                self.panic.append(y < 0); self.panic_msg.append('negative shift amount')       # Go: a negative count panics at run time
             # counts are unsigned (or non-negative): compare as unsigned 64-bit
             big = z3.UGE(y, z3.BitVecVal(w, 64))
             if t[1] == '<<':
@@ -180,7 +184,7 @@ class Sem:
             if op == '-': return self.wrap(x - y, kind)
             if op == '*': return self.wrap(self.ex.mul(self.st, x, y, 0) if not self.bv() else x * y, kind)
             if op in ('/', '%'):
-                self.panic.append(y == self.num(0))
+                self.panic.append(y == self.num(0)); self.panic_msg.append('integer divide by zero')
                 if self.bv():
                     if s: r = (x / y) if op == '/' else z3.SRem(x, y)
                     else: r = z3.UDiv(x, y) if op == '/' else z3.URem(x, y)
@@ -217,6 +221,7 @@ def goeval(t, env):
     if k == 'shift':
         x, y = goeval(t[2], env), goeval(t[3], env)
         w, s = KINDS[t[4]]
+        if y < 0: raise GoPanic('negative shift amount')
         if t[1] == '<<': return gowrap(x << y, t[4]) if y < 4096 else 0
         return x >> min(y, 4096)
     if k == 'bin':
@@ -385,7 +390,7 @@ class PatternExec(JSExec):
             elif how == 'panic':
                 self.oblige(state, 'panic-only-if-spec-panics(%s)' % info, panic_cond)
                 if sem.panic:
-                    self.oblige(state, 'panic-message', z3.BoolVal(str(info) == 'integer divide by zero'))
+                    self.oblige(state, 'panic-message', z3.Or([z3.And(c, z3.BoolVal(str(info) == m)) for c, m in zip(sem.panic, sem.panic_msg)]))
             elif how == 'end':
                 self.oblige(state, 'returns-a-value', z3.BoolVal(False))
         self.trace = []
